@@ -8,6 +8,9 @@ pub mod lenfield;
 pub mod delim;
 #[cfg(kani)]
 pub mod cmsg;
+pub mod doubles;
+#[cfg(kani)]
+pub mod c11;
 /// concrete-playback tests are written here by `./check --replay` (committed empty)
 #[cfg(kani)]
 mod playback_gen;
